@@ -203,6 +203,11 @@ func (e *Engine) globalVals(fx *FuncCtx, key string, vr *types.Var) (Val, bool) 
 	fx.decls = fx.decls[:n0]
 	fx.globals[key] = v
 	fx.globalFacts = append(fx.globalFacts, facts...)
+	if iv, ok := v.(IfaceV); ok && e.initializedNonNil(vr) {
+		fx.permDecls = append(fx.permDecls, "(declare-const nilIface Iface)")
+		fx.declSet["(declare-const nilIface Iface)"] = true
+		fx.globalFacts = append(fx.globalFacts, Not(Eq(iv.T, Term{"nilIface", SIfc})))
+	}
 	return v, true
 }
 
@@ -719,4 +724,65 @@ func solveByCases(query string, timeoutMs int) *SolveResult {
 		}
 	}
 	return nil
+}
+
+// initializedNonNil: package-level variable initialised by errors.New / fmt.Errorf /
+// a composite literal (never reassigned in gonum: these are sentinel errors).
+func (e *Engine) initializedNonNil(vr *types.Var) bool {
+	pi := e.pkgs[vr.Pkg().Path()]
+	if pi == nil {
+		switch vr.Pkg().Path() + "." + vr.Name() {
+		case "io.EOF", "io.ErrUnexpectedEOF", "io.ErrShortBuffer", "io.ErrShortWrite":
+			return true
+		}
+		return false
+	}
+	for _, f := range pi.pkg.Syntax {
+		for _, d := range f.Decls {
+			gd, ok := d.(*ast.GenDecl)
+			if !ok || gd.Tok != token.VAR {
+				continue
+			}
+			for _, sp := range gd.Specs {
+				vs := sp.(*ast.ValueSpec)
+				for i, n := range vs.Names {
+					if pi.pkg.TypesInfo.Defs[n] != vr || i >= len(vs.Values) {
+						continue
+					}
+					switch x := vs.Values[i].(type) {
+					case *ast.CallExpr:
+						if sel, ok := x.Fun.(*ast.SelectorExpr); ok {
+							if id, ok := sel.X.(*ast.Ident); ok && (id.Name == "errors" && sel.Sel.Name == "New" || id.Name == "fmt" && sel.Sel.Name == "Errorf") {
+								return true
+							}
+						}
+						// conversion of a string constant to an error type: Error("...")
+						if tv, ok := pi.pkg.TypesInfo.Types[x.Fun]; ok && tv.IsType() {
+							return true
+						}
+					case *ast.CompositeLit:
+						return true
+					}
+				}
+			}
+		}
+	}
+	return false
+}
+
+// arraySliced: is this local array variable sliced (b[:], b[i:j]) in its function?
+func (e *Engine) arraySliced(fx *FuncCtx, obj types.Object) bool {
+	if _, ok := obj.Type().Underlying().(*types.Array); !ok {
+		return false
+	}
+	found := false
+	ast.Inspect(fx.decl, func(n ast.Node) bool {
+		if se, ok := n.(*ast.SliceExpr); ok {
+			if id, ok := unparen(se.X).(*ast.Ident); ok && fx.info.ObjectOf(id) == obj {
+				found = true
+			}
+		}
+		return !found
+	})
+	return found
 }
